@@ -34,18 +34,23 @@ type VerifOp struct {
 	HasMem        bool   // memorySize != nil
 	MinGas        uint64 // gasCost on a zero stack of height MinStack, empty memory, memorySize 0
 	GasProbeOK    bool   // the probe returned without error/panic
+	ConstGas      bool   // no memorySize function and every probe (zero / small / all-ones stacks, two contracts) gave MinGas
 }
 
-func verifStack(n int) *Stack {
+func verifStack(n int) *Stack { return verifStackOf(n, new(big.Int)) }
+
+func verifStackOf(n int, v *big.Int) *Stack {
 	st := newstack()
 	for i := 0; i < n; i++ {
-		st.push(new(big.Int))
+		st.push(new(big.Int).Set(v))
 	}
 	return st
 }
 
-// VerifJumpTable probes the table installed by NewInterpreter(evm, Config{}).
-func VerifJumpTable(am AccountManager) [256]VerifOp {
+// VerifJumpTable probes the table installed by NewInterpreter(evm, Config{}). `funded` is an
+// account with a non-zero balance (used as a second probe contract so that balance-dependent gas
+// functions show their dynamic part).
+func VerifJumpTable(am AccountManager, funded common.Address) [256]VerifOp {
 	evm := NewEVM(Context{}, am, Config{})
 	in := evm.interpreter
 	var out [256]VerifOp
@@ -81,6 +86,17 @@ func VerifJumpTable(am AccountManager) [256]VerifOp {
 				g, err := o.gasCost(in.gasTable, evm, c, verifStack(v.MinStack), NewMemory(), 0)
 				v.MinGas = g
 				v.GasProbeOK = err == nil
+				v.ConstGas = err == nil && o.memorySize == nil
+				ones := new(big.Int).Sub(new(big.Int).Lsh(big.NewInt(1), 256), big.NewInt(1))
+				for _, val := range []*big.Int{big.NewInt(1), big.NewInt(0xe0e003), ones} {
+					for _, who := range []ContractRef{self, AccountRef(funded)} {
+						c2 := NewContract(who, who, new(big.Int), 1<<40)
+						g2, err2 := o.gasCost(in.gasTable, evm, c2, verifStackOf(v.MinStack, val), NewMemory(), 0)
+						if err2 != nil || g2 != g {
+							v.ConstGas = false
+						}
+					}
+				}
 			}()
 		}
 		out[i] = v
@@ -103,13 +119,27 @@ func (evm *EVM) VerifCallGasTemp() uint64 { return evm.callGasTemp }
 type VerifPrecompile struct {
 	Addr        uint64
 	WritesState bool
+	// Guarded: RunPrecompiledContract, called with the interpreter in readOnly mode, refuses this
+	// precompile with errWriteProtection before running it (probed on a throw-away EVM).
+	Guarded bool
 }
 
 // VerifPrecompiles lists PrecompiledContracts sorted by address.
-func VerifPrecompiles() []VerifPrecompile {
+func VerifPrecompiles(am AccountManager) []VerifPrecompile {
 	var out []VerifPrecompile
 	for a, p := range PrecompiledContracts {
-		out = append(out, VerifPrecompile{Addr: a.Big().Uint64(), WritesState: precompileWritesState(p)})
+		v := VerifPrecompile{Addr: a.Big().Uint64(), WritesState: precompileWritesState(p)}
+		if v.WritesState {
+			func() {
+				defer func() { recover() }()
+				evm := NewEVM(Context{}, am, Config{})
+				evm.interpreter.readOnly = true
+				self := AccountRef(a)
+				_, err := RunPrecompiledContract(p, []byte("{"), NewContract(self, self, new(big.Int), 1<<30), evm)
+				v.Guarded = err == errWriteProtection
+			}()
+		}
+		out = append(out, v)
 	}
 	for i := 1; i < len(out); i++ {
 		for j := i; j > 0 && out[j].Addr < out[j-1].Addr; j-- {
